@@ -55,6 +55,32 @@ def functions(tier):
     """
     return H.array_ok({k1}, n, c1, {k2}, m, c2)
 ''', lambda a, k1=k1, k2=k2: (H.array_ok(k1, a[0], a[1], k2, a[2], a[3]), f"array ({k1},{a[0]},{a[1]}) vs ({k2},{a[2]},{a[3]})")))
+    for fam, k1 in itertools.product(range(3), range(3)):
+        n = f"c13_respec_{fam}_{k1}"
+        fs.append((n, f'''def {n}(n: int, k2: int, m: int, order: int) -> bool:
+    """
+    pre: 1 <= n <= {3 if tier == "quick" else 4} and 0 <= k2 <= 2 and 1 <= m <= {3 if tier == "quick" else 4} and 0 <= order <= 1
+    post: _
+    """
+    return H.respec_ok({fam}, {k1}, n, k2, m, order)
+''', lambda a, fam=fam, k1=k1: (H.respec_ok(fam, k1, a[0], a[1], a[2], a[3]), f"re-specialised class family {fam} kind {k1} width {a[0]} -> kind {a[1]} width {a[2]} (order {a[3]})")))
+    for k, Wv in itertools.product(range(3), (1, 3) if tier == "quick" else (1, 3, 4)):
+        n = f"c13_oobslice_{k}_{Wv}"
+        fs.append((n, f'''def {n}(hi: int, lo: int, q: int) -> bool:
+    """
+    pre: -3 <= hi <= {Wv + 2} and -3 <= lo <= {Wv + 2} and 0 <= q <= 2
+    post: _
+    """
+    return H.oob_slice_ok({Wv}, {k}, hi, lo, q)
+''', lambda a, k=k, Wv=Wv: (H.oob_slice_ok(Wv, k, a[0], a[1], a[2]), f"slice [{a[0]}:{a[1]}] of a {Wv} bit object of kind {k} (qualifier {a[2]})")))
+        n = f"c13_oobindex_{k}_{Wv}"
+        fs.append((n, f'''def {n}(i: int, q: int) -> bool:
+    """
+    pre: {-Wv - 2} <= i <= {Wv + 2} and 0 <= q <= 2
+    post: _
+    """
+    return H.oob_index_ok({Wv}, {k}, i, q)
+''', lambda a, k=k, Wv=Wv: (H.oob_index_ok(Wv, k, a[0], a[1]), f"index {a[0]} of a {Wv} bit object of kind {k} (qualifier {a[1]})")))
     W = 2 if tier == "quick" else 3
     top = (1 << W) - 1
     for k, wv in itertools.product(range(3), range(5)):
